@@ -166,7 +166,7 @@ class _Profiler:
 
     def _cb(self, co, offset):
         fn = co.co_filename
-        if fn.startswith("/repo/src/skmatter/"):
+        if fn.startswith(patch.REPO_SRC + "skmatter/"):
             if co not in self.codes:
                 self.codes[co] = (fn, co.co_qualname, co.co_firstlineno)
         return sys.monitoring.DISABLE
@@ -181,7 +181,7 @@ class _Profiler:
                 h = hashlib.sha1("".join(lines).encode()).hexdigest()[:12]
             except Exception:
                 h = "?"
-            out[f"{fn[len('/repo/src/'):]}::{qn}"] = h
+            out[f"{fn[len(patch.REPO_SRC):]}::{qn}"] = h
         return out
 
 
